@@ -474,6 +474,16 @@ pub fn run_stream(kind: Kind, params: &Params, t0: i64, events: &[Ev], cond: &[C
             Err(e) => out.push(format!("u:{}", err_tok(e))),
         }
         obs_toks(&(sut.get)(), is_ewma, out);
+        // a consumer's unit check on a Quantity output: it passes in every configuration (without dimension checking nothing is
+        // compared), so a label that is only wrong where labels are looked at shows up as a difference between configurations
+        if let Some(u) = (sut.out_unit)() {
+            let want = match kind {
+                Kind::Integral => Unit::new(p.unit.0, p.unit.1.saturating_add(1)),
+                Kind::Derivative => Unit::new(p.unit.0, p.unit.1.saturating_sub(1)),
+                _ => p.unit(),
+            };
+            out.push(if u.eq_assume_true(&want) { "unit-ok" } else { "unit-mismatch" }.to_string());
+        }
         if is_ewma {
             match ev {
                 Ev::E(_) => {
